@@ -461,6 +461,133 @@ def tie_likebut(res, tier, rng):
                       found_input=False)
 
 
+OTHER_OPTIONS = ['imp:n=1', 'u=3', 'trcl=(1 0 0)', 'imp:p=2', 'u=7']
+
+
+def gen_like_cards(rng, wild):
+    '''{id: ('plain', tokens, opts) | ('like', n, opts)} with LIKE chains of
+    up to four hops; opts = list of ('mat', s) | ('rho', s) | ('other', text);
+    the LIKE graph is acyclic (a cycle makes the repository loop forever).'''
+    cards = OrderedDict()
+    ids = rng.sample(range(1, 40), rng.randint(2, 7))
+
+    def options(is_base):
+        out = [('other', 'imp:n=1')] if is_base else []
+        for _ in range(rng.choice([0, 1, 1, 2, 3])):
+            kind = rng.random()
+            if kind < 0.35:
+                out.append(('mat', rng.choice(['0', '1', '2', '02', '5', '00'])))
+            elif kind < 0.7:
+                number = c09_gen.gen_number(rng, wild=wild)
+                out.append(('rho', c09_gen.gen_spellings(rng, number, 1,
+                                                         wild=wild)[0][0]))
+            else:
+                out.append(('other', rng.choice(OTHER_OPTIONS)))
+        rng.shuffle(out)
+        return out
+    done = []
+    for k in ids:
+        if done and rng.random() < 0.65:
+            target = rng.choice(done)
+            if rng.random() < 0.04:
+                target = 99                       # KeyError
+            cards[k] = ('like', target, options(False))
+        else:
+            mat = rng.choice(['0', '1', '2', '3', '01'])
+            toks = [mat]
+            if int(mat) != 0:
+                number = c09_gen.gen_number(rng, wild=wild)
+                toks.append(c09_gen.gen_spellings(rng, number, 1,
+                                                  wild=wild)[0][0])
+            cards[k] = ('plain', toks, options(True))
+        done.append(k)
+    # cards may refer to cells defined later in the deck
+    items = list(cards.items())
+    if rng.random() < 0.5:
+        rng.shuffle(items)
+    return OrderedDict(items)
+
+
+def render_options(opts, rng):
+    parts = []
+    for kind, text in opts:
+        if kind == 'mat':
+            parts.append(rng.choice(['mat=', 'MAT=', 'mat ']) + text)
+        elif kind == 'rho':
+            parts.append(rng.choice(['rho=', 'RHO=', 'rho ']) + text)
+        else:
+            parts.append(text)
+    return ' ' + ' '.join(parts)
+
+
+def ccard(card):
+    def copts(opts):
+        return clist('(OMat %s)' % cstr(t) if k == 'mat' else
+                     '(ORho %s)' % cstr(t) if k == 'rho' else 'OOther'
+                     for k, t in opts)
+    if card[0] == 'plain':
+        return f'(Plain {clist(cstr(t) for t in card[1])} {copts(card[2])})'
+    return f'(Like {cz(card[1])} {copts(card[2])})'
+
+
+def tie_likechain(res, tier, rng):
+    '''ParseMCNPCell.parse_one_cell (the LIKE loop, apply_but, the keyword
+    scan) on dictionaries of parsed cards vs Model.card_material.'''
+    from t4_geom_convert.Kernel.FileHandlers.Parser.ParseMCNPCell import \
+        ParseMCNPCell
+    n = 120 if tier == 'quick' else 1200
+    cases, meta = [], []
+    depth_seen = 0
+    with impl.mip_parser(COMP_DECK) as parser:
+        worker = ParseMCNPCell(parser, None, {})
+        for i in range(n):
+            cards = gen_like_cards(rng, wild=i % 3 == 0)
+            parsed = OrderedDict()
+            for k, card in cards.items():
+                if card[0] == 'plain':
+                    parsed[k] = (' ' + ' '.join(card[1]), ' -1',
+                                 render_options(card[2], rng))
+                else:
+                    parsed[k] = ('', rng.choice([' like %d but', ' LIKE %d BUT'])
+                                 % card[1], render_options(card[2], rng))
+            for rank, k in enumerate(cards):
+                def call(rank=rank, k=k):
+                    cell = worker.parse_one_cell(parsed, rank, None, parsed[k])
+                    return (str(cell.materialID), cell.density)
+                out = guarded(call)
+                hops, cur = 0, cards[k]
+                while cur[0] == 'like' and cur[1] in cards:
+                    hops, cur = hops + 1, cards[cur[1]]
+                depth_seen = max(depth_seen, hops)
+                cases.append(cpair(
+                    clist(cpair(cz(j), ccard(c)) for j, c in cards.items()),
+                    cz(k),
+                    cres(out, lambda o: cpair(cstr(o[0]), copt(o[1], cstr)))))
+                meta.append((dict(parsed), k, out))
+                res.seen(('likechain', tuple(parsed.items()), k),
+                         nontrivial=hops > 0)
+                res.count(f'likechain:hops-{min(hops, 4)}')
+    bad, errs = run_cases(
+        'c09_chain', HEADER,
+        'idict card * Z * res (string * option string)',
+        'check_card_material', cases, chunk=150)
+    res.obligation(f'tie:likechain ({len(cases)} cards of {n} dictionaries, '
+                   f'LIKE chains up to {depth_seen} hops: parse_one_cell, '
+                   'material and density)', not bad and not errs
+                   and depth_seen >= 3,
+                   f'{len(bad)} disagreements {errs[:1]}')
+    for idx in bad[:10]:
+        parsed, k, out = meta[idx]
+        res.violation('correspondence',
+                      f'parse_one_cell of card {k} in {parsed}: impl {out} '
+                      'differs from the model',
+                      {'input': {'cards': {str(j): list(v)
+                                           for j, v in parsed.items()},
+                                 'card': k}, 'observed': out,
+                       'theorem_or_correspondence': 'tie:likechain'},
+                      found_input=False)
+
+
 # ---------------------------------------------------------------------------
 # pot_fill on synthetic dictionaries
 # ---------------------------------------------------------------------------
@@ -1093,6 +1220,7 @@ def run(res, tier, seed, proofs_ok):
     sweep_spellings(res, tier, rng)
     tie_material(res, tier, rng)
     tie_likebut(res, tier, rng)
+    tie_likechain(res, tier, rng)
     tie_fill(res, tier, rng)
     real = sweep_decks(res, tier, rng)
     tie_geomcomp(res, tier, rng, [r[:4] for r in real])
